@@ -190,6 +190,38 @@ func c13(c *Ctx) {
 			// the compared node is the range element
 			okNext := nextEl != nil || isRangeElemCell(a[0])
 			r.Check(okLink && okNext, "R1.hash-link", wn+" link-operands", p.Pos(chk.Pos()), "the next proof element is compared with the reference the traversal returned", "the hash link compares something other than (next proof element, child reference returned by the traversal)")
+			// what is compared is a child reference, never a leaf's value: the link check is
+			// reached only after the traversal consumed part of the path (a leaf consumes nothing
+			// and yields its value; a 31-byte storage value has a 32-byte RLP form that an
+			// attacker can make equal to the hash of a node of their own), or the traversal used
+			// cannot end in a leaf at all
+			{
+				progress := core.AnyFact(func(f core.Fact) bool {
+					return core.CmpFact(f, func(op token.Token, x, y ssa.Value) bool {
+						isLeft := func(v ssa.Value) bool {
+							return core.IsLenOf(v, func(z ssa.Value) bool { return core.ResultOf(z, trav, 1) })
+						}
+						isBefore := func(v ssa.Value) bool {
+							return core.IsLenOf(v, func(z ssa.Value) bool { return z == trav.Call.Args[1] })
+						}
+						return (op == token.LSS && isLeft(x) && isBefore(y)) || (op == token.GTR && isBefore(x) && isLeft(y))
+					})
+				})
+				wl := core.InstrGuarded(chk, progress, header)
+				leafFree := true
+				if tf := core.StaticCalleeFn(trav); tf != nil {
+					for _, b := range tf.Blocks {
+						for _, in := range b.Instrs {
+							if ta, ok := in.(*ssa.TypeAssert); ok && !ta.CommaOk && strings.HasSuffix(ta.AssertedType.String(), "valueNode") {
+								leafFree = false
+							}
+						}
+					}
+				}
+				r.Check(wl == nil || leafFree, "R1.hash-link", wn+" link-is-child-reference", p.Pos(chk.Pos()),
+					"the next node is compared with the traversal's result only after the traversal consumed part of the path (a leaf's value is never taken for a child reference)",
+					"a leaf's value can be taken for the hash of the next proof node: the proof may continue below a leaf with nodes that are not part of the trie (witness: storage slot holding keccak(N)[1:] for a crafted node N with keccak(N)[0] == 0x9f): "+p.PathString(wl))
+			}
 			// carried updates
 			okCarry := false
 			for _, e := range pathPhi.Edges {
@@ -227,6 +259,12 @@ func c13(c *Ctx) {
 		}
 	}
 
+	// ---- the state root comes from the header the oracle bound to the content's block hash
+	for _, nt := range implementersOf(p, "validation", "Oracle") {
+		if m := methodOf(p, nt, "GetBlockHeaderByHash"); m != nil && len(core.CallsTo(m, rpcCallContext)) > 0 {
+			oracleHeaderBinding(c, "R2.oracle-binding", m)
+		}
+	}
 	// ---- R2 validators
 	var SV *ssa.Function
 	for _, nt := range implementersOf(p, "validation", "Validator") {
